@@ -7,6 +7,8 @@ pub mod c04;
 pub mod c05;
 pub mod c06;
 pub mod c09;
+pub mod c10;
+pub mod c11;
 
 pub type RunFn = fn(&Ctx) -> Finish;
 pub type ReplayFn = fn(&mut Local, &serde_json::Value) -> Result<(), String>;
@@ -20,6 +22,8 @@ pub fn registry() -> Vec<(&'static str, RunFn, ReplayFn)> {
         ("C05", c05::run as RunFn, c05::replay as ReplayFn),
         ("C06", c06::run as RunFn, c06::replay as ReplayFn),
         ("C09", c09::run as RunFn, c09::replay as ReplayFn),
+        ("C10", c10::run as RunFn, c10::replay as ReplayFn),
+        ("C11", c11::run as RunFn, c11::replay as ReplayFn),
     ]
 }
 
